@@ -21,15 +21,25 @@ type c04Kw struct {
 	cons gedcom.DateConstraint
 }
 
+// The documented spellings are written out here, NOT read from the library's
+// DateWords* constants: a word that disappears from a constant must be missed.
+const (
+	c04WordsAbout   = "Abt.|abt|about|c.|ca|ca.|cca|cca.|circa"
+	c04WordsAfter   = "Aft.|aft|after"
+	c04WordsBefore  = "Bef.|bef|before"
+	c04WordsBetween = "Bet.|bet|between|from"
+	c04WordsAnd     = "and|to|-"
+)
+
 func c04Keywords() []c04Kw {
 	var k []c04Kw
-	for _, w := range strings.Split(gedcom.DateWordsAbout, "|") {
+	for _, w := range strings.Split(c04WordsAbout, "|") {
 		k = append(k, c04Kw{w, gedcom.DateConstraintAbout})
 	}
-	for _, w := range strings.Split(gedcom.DateWordsAfter, "|") {
+	for _, w := range strings.Split(c04WordsAfter, "|") {
 		k = append(k, c04Kw{w, gedcom.DateConstraintAfter})
 	}
-	for _, w := range strings.Split(gedcom.DateWordsBefore, "|") {
+	for _, w := range strings.Split(c04WordsBefore, "|") {
 		k = append(k, c04Kw{w, gedcom.DateConstraintBefore})
 	}
 	k = append(k, c04Kw{"", gedcom.DateConstraintExact})
@@ -224,8 +234,8 @@ func c04Days(y, m int, thorough bool, r *fw.Rand) []int {
 // [0, K*4): single dates, one case per (keyword, case variant)
 // then 36 range cases, then near-miss cases.
 
-var c04Between = strings.Split(gedcom.DateWordsBetween, "|")
-var c04And = strings.Split(gedcom.DateWordsAnd, "|")
+var c04Between = strings.Split(c04WordsBetween, "|")
+var c04And = strings.Split(c04WordsAnd, "|")
 
 const c04NearCases = 8
 
@@ -257,7 +267,7 @@ func init() {
 			return f
 		},
 		Assumptions: []string{
-			"documented grammar = the DateWords* constants, the month table and the forms listed on Date/DateNode; years 1..9999 without leading zeros; at most one leading zero on days; 1-3 spaces between words",
+			"documented grammar = the keyword spellings listed in the property (written out in the harness, not read from the DateWords* constants), the month table and the forms listed on Date/DateNode; years 1..9999 without leading zeros; at most one leading zero on days; 1-3 spaces between words",
 			"nothing is demanded for undocumented forms other than the enumerated near misses",
 		},
 	})
